@@ -86,8 +86,9 @@ func acceptUnits(c *checkCtx, check string) []*interp.Unit {
 			{half, profile{"raw K<=2 L<=4", map[string]interface{}{"profile": "raw", "K": 2, "L": 4}}},
 			{eighth, profile{"raw K<=3 L<=3", map[string]interface{}{"profile": "raw", "K": 3, "L": 3}}},
 			{eighth, profile{"tmpl K<=2 Lp<=2", map[string]interface{}{"profile": "tmpl", "K": 2, "Lp": 2}}},
-			{everyNth(base, 4, c.seed), profile{"core template K<=4 Lp<=1", map[string]interface{}{"profile": "tmplmini", "K": 4, "Lp": 1}}},
-			{core[:5], profile{"tmpl K<=3 Lp<=1", map[string]interface{}{"profile": "tmpl", "K": 3, "Lp": 1}}},
+			// (sized by measurement: the template with K<=3 items costs ~75 s per spec, the core template with K<=4 ~15 s)
+			{core[:6], profile{"core template K<=4 Lp<=1", map[string]interface{}{"profile": "tmplmini", "K": 4, "Lp": 1}}},
+			{core[:1], profile{"tmpl K<=3 Lp<=1", map[string]interface{}{"profile": "tmpl", "K": 3, "Lp": 1}}},
 		}
 	}
 	// long command lines over a small alphabet on repetition-heavy specs
@@ -97,7 +98,7 @@ func acceptUnits(c *checkCtx, check string) []*interp.Unit {
 	}
 	plans = append(plans, plan{longSpecs, profile{"long K<=5 over {positional, flag, valued option}", map[string]interface{}{"profile": "long", "K": 5, "Lp": 1}}})
 	if !c.quick() {
-		plans = append(plans, plan{longSpecs[:4], profile{"long K<=6 over {positional, flag, valued option}", map[string]interface{}{"profile": "long", "K": 6, "Lp": 1}}})
+		plans = append(plans, plan{longSpecs[:2], profile{"long K<=6 over {positional, flag, valued option}", map[string]interface{}{"profile": "long", "K": 6, "Lp": 1}}})
 	}
 	var us []*interp.Unit
 	for _, pl := range plans {
@@ -228,7 +229,7 @@ func init() {
 			if c.quick() {
 				return map[string]interface{}{"specs": "curated + END family + every 48th generated spec (rotated by VERIF_SEED)", "raw": "K<=2 tokens of L<=3 arbitrary bytes", "template": "K<=2 items over 24 documented/malformed shapes, payload <=1 byte", "long": "K<=5 items over {positional, short flag, valued option + separate value} on 8 repetition-heavy specs", "structural (H_struct)": "every sequence of <=4 spec tokens over 16 kinds that compiles: language equivalence of the compiled graph and the Glushkov automaton of the reference regular expression, proved by k-induction in z3 for label sequences of any length"}
 			}
-			return map[string]interface{}{"specs": "curated (86) + END family (19); every 16th of the 1476 generated specs for raw K<=2 L<=4; every 2nd curated/END and every 64th generated spec for raw K<=3 and the 2-byte template (rotated by VERIF_SEED)", "raw": "K<=2 tokens of L<=4 arbitrary bytes; K<=3 tokens of L<=3 bytes", "template": "K<=2 items over 24 documented/malformed shapes with payload <=2 bytes; K<=3 items (payload 1 byte) on 5 core specs; K<=4 items over the 5 well-formed core shapes on every 4th curated / END spec", "long": "K<=5 items over {positional, short flag, valued option + separate value} on 14 repetition-heavy specs, K<=6 on 4 of them", "structural (H_struct)": "every sequence of <=5 spec tokens over 16 kinds that compiles: language equivalence by k-induction, label sequences of any length"}
+			return map[string]interface{}{"specs": "curated (86) + END family (19); every 16th of the 1476 generated specs for raw K<=2 L<=4; every 2nd curated/END and every 64th generated spec for raw K<=3 and the 2-byte template (rotated by VERIF_SEED)", "raw": "K<=2 tokens of L<=4 arbitrary bytes; K<=3 tokens of L<=3 bytes", "template": "K<=2 items over 24 documented/malformed shapes with payload <=2 bytes; K<=3 items (payload 1 byte) on 1 core spec; K<=4 items over the 5 well-formed core shapes on 6 core specs", "long": "K<=5 items over {positional, short flag, valued option + separate value} on 14 repetition-heavy specs, K<=6 on 2 of them", "structural (H_struct)": "every sequence of <=5 spec tokens over 16 kinds that compiles: language equivalence by k-induction, label sequences of any length"}
 		},
 		Assumptions: append([]string{"declaration table: flags -a/--aa -b/--bb, valued -o/--oo -e/--ee (string lists), arguments X Y; no environment variables", "no token equals -h/--help (C14); no folded token with '=' after a flag; inputs of DESIGN.md 4.5 (iv) excluded for specs containing `--`", "flag values written as -a=v convert through strconv.ParseBool modelled as an uninterpreted function shared by implementation and reference"}, commonAssumptions...),
 		Outside:     []string{"command lines longer than K tokens / L bytes", "specs outside the family", "other declaration tables"},
@@ -455,16 +456,17 @@ func init() {
 				us = append(us, specUnits("H_envmono", []string{"[OPTIONS]", "[OPTIONS] X", "-ae", "-a -o -e X", "-a -b -o -e", "-a -o -- X"}, []profile{{"tmpl K<=2 Lp<=1, all 16 env subsets", map[string]interface{}{"profile": "tmpl", "K": 2, "Lp": 1, "envmask": 15}}}, 1)...)
 				return append(us, requiredEnvUnits(1, 1)...)
 			}
-			// (sized by measurement: every env-heavy and curated spec with all 16 subsets did not fit in 18 min)
+			// (sized by measurement: wider plans did not fit in 16 min; the thorough tier is the quick plan on
+			// twice as many specs, raw tokens of 3 bytes on the core specs and 2-byte environment values)
 			us := specUnits("H_envmono", append(core, append(everyNth(specs, 3, c.seed), everyNth(cur, 20, c.seed)...)...), []profile{{"tmpl K<=2 Lp<=1, env subsets of {VA,VE}", map[string]interface{}{"profile": "tmpl", "K": 2, "Lp": 1, "envmask": 9}}}, 1)
-			us = append(us, specUnits("H_envmono", core, []profile{{"raw K<=2 L<=3, env subsets of {VA,VE}", map[string]interface{}{"profile": "raw", "K": 2, "L": 3, "envmask": 9}}}, 1)...)
+			us = append(us, specUnits("H_envmono", core[:4], []profile{{"raw K<=2 L<=3, env subsets of {VA,VE}", map[string]interface{}{"profile": "raw", "K": 2, "L": 3, "envmask": 9}}}, 1)...)
 			us = append(us, specUnits("H_envmono", []string{"-e X", "-a -e", "[OPTIONS] X [OPTIONS]", "-o [-a]"}, []profile{{"raw K<=2 L<=2, declared defaults equal to the environment values", map[string]interface{}{"profile": "raw", "K": 2, "L": 2, "envmask": 15, "defEqEnv": 1}}}, 1)...)
 			us = append(us, specUnits("H_envmono", []string{"[OPTIONS] X [OPTIONS]", "[-ae] X [-ae]"}, []profile{{"core template K<=3 Lp<=1, env subsets of {VA,VE}", map[string]interface{}{"profile": "tmplmini", "K": 3, "Lp": 1, "envmask": 9}}}, 1)...)
-			us = append(us, specUnits("H_envmono", []string{"[OPTIONS]", "[OPTIONS] X", "-ae", "-a -o -e X", "-a -b -o -e", "-a -o -- X", "[-e...] X", "(-e | -a)... X"}, []profile{{"tmpl K<=2 Lp<=1, all 16 env subsets", map[string]interface{}{"profile": "tmpl", "K": 2, "Lp": 1, "envmask": 15}}}, 1)...)
-			return append(us, requiredEnvUnits(3, 2)...)
+			us = append(us, specUnits("H_envmono", []string{"[OPTIONS]", "[OPTIONS] X", "-ae", "-a -o -e X", "-a -b -o -e", "-a -o -- X"}, []profile{{"tmpl K<=2 Lp<=1, all 16 env subsets", map[string]interface{}{"profile": "tmpl", "K": 2, "Lp": 1, "envmask": 15}}}, 1)...)
+			return append(us, requiredEnvUnits(2, 1)...)
 		},
 		Bounds: func(c *checkCtx) map[string]interface{} {
-			return map[string]interface{}{"env": map[bool]string{true: "every subset of {VA,VE} (all 16 subsets of {VA,VB,VO,VE} on the three option-group specs)", false: "every subset of {VA,VE} (all 16 subsets of {VA,VB,VO,VE} on 8 option-group / multi-option specs)"}[c.quick()] + " set to a fixed valid value (symbolic bits)", "argv": "template K<=2 items over 24 shapes" + map[bool]string{true: "", false: "; raw K<=2 L<=3 on the core specs"}[c.quick()],
+			return map[string]interface{}{"env": map[bool]string{true: "every subset of {VA,VE} (all 16 subsets of {VA,VB,VO,VE} on the three option-group specs)", false: "every subset of {VA,VE} (all 16 subsets of {VA,VB,VO,VE} on 6 option-group / multi-option specs)"}[c.quick()] + " set to a fixed valid value (symbolic bits)", "argv": "template K<=2 items over 24 shapes" + map[bool]string{true: "", false: "; raw K<=2 L<=3 on 4 core specs"}[c.quick()],
 				"specs": "env-heavy shapes + curated + END family (a rotated subset: quick every 6th / 40th, thorough every 3rd / 20th)"}
 		},
 		Assumptions: append([]string{"value-identity clause only for specs without `--`", "differential clause (acceptance with env == reference with env fallback) only for specs without option groups"}, commonAssumptions...),
